@@ -306,7 +306,9 @@ func classify(err error) string {
 	case strings.Contains(s, "context deadline exceeded"):
 		return "timeout"
 	}
-	if os.Getenv("C20_DEBUG") != "" { fmt.Fprintln(os.Stderr, "other-error:", err) }
+	if os.Getenv("C20_DEBUG") != "" {
+		fmt.Fprintln(os.Stderr, "other-error:", err)
+	}
 	return "other-error"
 }
 
